@@ -101,6 +101,7 @@ func ambientFuncs(c *Ctx) map[*types.Func]string {
 }
 
 func runC10(c *Ctx, r *Report) {
+	c10TouchIndex(c, r, "C10-a/touch-index")
 	c10ProbeSoundness(c, r)
 	c10TouchPropagates(c, r)
 	c10ProbeCounts(c, r)
